@@ -381,6 +381,7 @@ def instantiate_builtin(engine, st, fr, ci, args, kwargs, star, starkw, node):
         for f, v in kwargs.items():
             st.put(f, oid, engine.to_val(st, v))
         st.put("$len", oid, z3.IntVal(len(ci.namedtuple_fields)))
+        st.frozen.add(oid)
         yield st, Z(ref(oid), ("inst", name))
         return
     if engine.repo.is_subclass(name, "BaseException"):
